@@ -155,13 +155,14 @@ def main(chk):
     mir = mirsym.dump_mir()
     native.build(); native.build('release')
     q = chk.tier == 'quick'
-    to = 40 if q else 600
+    to = 90 if q else 900
     jobs = []
     for n in ((1, 2, 3, 4) if q else (1, 2, 3, 4, 5, 6)):
         for name in ('SMA', 'WMA', 'SD', 'MAD', 'BB'):
             jobs.append((induct_family, (mir, name, n, chk.seed, to), {}))
     for n in ((1, 2, 3) if q else (1, 2, 3, 4, 5)):
         for name in ('SMA', 'WMA', 'SD', 'BB', 'MAD', 'MIN', 'MAX', 'CCI', 'MFI'):
+            if q and n > 2 and name in ('MFI', 'CCI'): continue          # > 100 s under load: thorough tier
             jobs.append((unroll_family, (mir, name, n, (3 * n + 4) if q else (4 * n + 4), chk.seed, to), {}))
     chk.add(run_jobs(jobs))
     hs = [k_bb_mean_table(2, 6, chk.seed)] + ([k_bb_mean(2, 5), k_bb_mean_table(3, 8, chk.seed), k_bb_mean(3, 6)] if not q else [])
